@@ -201,7 +201,14 @@ func runC10(c *Ctx) {
 									cc, ci := callOf(tail.Low)
 									okTail := false
 									if cc != nil && cc.Call.StaticCallee() == consume && ci == 0 {
+										sameBytes := false
 										if arg, isA := cc.Call.Args[0].(*ssa.Slice); isA && arg.Low == nil && w.sameKey(arg.X, tail.X) && w.key(arg.High) == w.key(tail.High) {
+											sameBytes = true // consume(src[:n]) … src[size:n]
+										}
+										if tail.High == nil && (cc.Call.Args[0] == tail.X || w.sameKey(cc.Call.Args[0], tail.X)) {
+											sameBytes = true // seg := src[:n]; consume(seg) … seg[size:]
+										}
+										if sameBytes {
 											for _, f := range w.factsAt(in) {
 												if x, isNil, isNF := nilFact(f); isNF && isNil {
 													if fc, fi := callOf(x); fc == cc && fi == 1 {
